@@ -273,6 +273,12 @@ type GenOpts struct {
 	WideBytes bool
 	// SortedNoRewind: file tokens in non-decreasing position order.
 	NoRewind bool
+	// BigStreams: some streams get 16-100 tiny blocks (files spanning dozens of
+	// blocks, more than 64 segments per file, long block tables).
+	BigStreams bool
+	// HugeLine: one stream gets enough locators to make its line longer than
+	// 64 KiB / 128 KiB (used sparingly: ~1500-3500 locators).
+	HugeLine bool
 }
 
 var compAlphabet = []string{"a", "b", "c", "d", "foo", "bar.txt", "x1"}
@@ -445,6 +451,17 @@ func Gen(t *rapid.T, o GenOpts) *Manifest {
 		s.Esc = genEscape(t, name, true, "stream")
 		// blocks
 		nblocks := rapid.IntRange(1, o.MaxBlocks).Draw(t, "nblocks")
+		maxLen := o.MaxBlockLen
+		big := o.BigStreams && rapid.IntRange(0, 1).Draw(t, "bigStream") == 0
+		if big {
+			nblocks = rapid.SampledFrom([]int{16, 17, 31, 32, 33, 63, 64, 65, 66, 70, 100}).Draw(t, "bigNBlocks")
+			maxLen = 3
+		}
+		if o.HugeLine && si == 0 {
+			nblocks = rapid.SampledFrom([]int{1400, 1700, 2900, 3300}).Draw(t, "hugeNBlocks")
+			maxLen = 2
+			big = true
+		}
 		for bi := 0; bi < nblocks; bi++ {
 			var n int
 			switch rapid.IntRange(0, 5).Draw(t, "blkLenClass") {
@@ -453,7 +470,11 @@ func Gen(t *rapid.T, o GenOpts) *Manifest {
 			case 1:
 				n = 1
 			default:
-				n = rapid.IntRange(0, o.MaxBlockLen).Draw(t, "blkLen")
+				n = rapid.IntRange(0, maxLen).Draw(t, "blkLen")
+			}
+			if big && bi > 40 {
+				// keep the draw count of very long streams bounded
+				n = 1 + (bi*7+si)%3
 			}
 			if o.NoZeroBlock && n == 0 {
 				n = 1
@@ -463,12 +484,18 @@ func Gen(t *rapid.T, o GenOpts) *Manifest {
 				counter++
 				data[i] = 'A' + (counter*7+byte(si)*3+byte(bi))%58
 			}
-			if n > 0 && rapid.IntRange(0, 9).Draw(t, "blkDup") == 0 && bi > 0 {
+			if n > 0 && (!big || bi <= 40) && rapid.IntRange(0, 9).Draw(t, "blkDup") == 0 && bi > 0 {
 				// repeat an earlier block (same locator twice in a stream)
 				prev := s.Blocks[rapid.IntRange(0, bi-1).Draw(t, "blkDupIdx")]
 				data = append([]byte(nil), prev.Data...)
 			}
-			s.Blocks = append(s.Blocks, Block{Data: data, Hints: genHints(t, o, "hint")})
+			hints := ""
+			if !big || bi <= 40 {
+				hints = genHints(t, o, "hint")
+			} else if o.Signed {
+				hints = fmt.Sprintf("+A%040x@6f%06x", bi, bi)
+			}
+			s.Blocks = append(s.Blocks, Block{Data: data, Hints: hints})
 		}
 		total := s.Len()
 		var bounds []int64
